@@ -1114,3 +1114,126 @@ Proof.
   destruct (rrun_snap (reach_sim (ri_cfg i)) (ri_kind i) (init (ri_init i)) (ri_calls i)) as [rs m].
   cbn [fst snd] in *. rewrite Hbad. cbn [ofB]. cbn [Z.eqb negb]. rewrite Hrs. reflexivity.
 Qed.
+
+(* ---- non-vacuity: 3x3, barrier (0,0), runners at (1,0), (2,2), (0,1), target at (1,1) --------------
+   one all-step step: runner 1 steps onto the target (+1, removed, inactive, health 1), runner 2 is shot
+   dead by the target (-1 / +1), runner 3 walks into the barrier (-0.1), every runner pays 0.01 *)
+Definition r3_ag (e : Z) (p : cell) (bl : bool) : arec :=
+  {| a_enc := e; a_pos := Some p; a_health := HD; a_active := true; a_ammo := None;
+     a_orient := None; a_blocking := bl |}.
+Definition r3_start : gstate :=
+  init_state 3 3 [(2, [3])] [r3_ag 1 (0, 0) true; r3_ag 3 (1, 0) false; r3_ag 3 (2, 2) false;
+                             r3_ag 3 (0, 1) false; r3_ag 2 (1, 1) false].
+Definition r3_att : acfg :=
+  {| c_range := 1; c_strength := HD; c_accuracy := HD; c_simul := 1; c_mapping := [3]; c_stacked := false |}.
+Definition r3_cf : rcfg :=
+  {| rc_agents := [{| r_kind := KBarrier; r_view := 0 |}; {| r_kind := KRunner; r_view := 0 |};
+                   {| r_kind := KRunner; r_view := 0 |}; {| r_kind := KRunner; r_view := 0 |};
+                   {| r_kind := KTarget r3_att; r_view := 1 |}];
+     rc_target := 4; rc_self := true |}.
+Definition r3_acts : list (nat * ract) :=
+  [(1%nat, RMove (0, 1)); (2%nat, RMove (0, 0)); (3%nat, RMove (0, -1));
+   (4%nat, RAttack [0; 0; 0; 0; 0; 0; 0; 0; 1])].
+Definition r3_s0 : rstate :=
+  bs_init 3 3 [(2, [3])] [r3_start] {| o_unif := [0]; o_choice := [[2%nat]] |}
+          [3; 3; 3; 1; 3; 3; 2; 3; 2; 3; 1; 3; 2].
+
+Definition r3_out : list bresp :=
+  [RObs [(1%nat, [[3]]); (2%nat, [[3]]); (3%nat, [[3]]); (4%nat, [[1; 3; 0]; [3; 2; 0]; [0; 0; 3]])];
+   ROut {| o_obs := [(1%nat, [[2]]); (2%nat, [[0]]); (3%nat, [[3]]); (4%nat, [[1; 3; 0]; [0; 2; 0]; [0; 0; 0]])];
+           o_rew := [(1%nat, 99); (2%nat, -101); (3%nat, -11); (4%nat, 100)];
+           o_done := [(1%nat, true); (2%nat, true); (3%nat, false); (4%nat, false)];
+           o_info := [(1%nat, tt); (2%nat, tt); (3%nat, tt); (4%nat, tt)]; o_all := false |}].
+
+Lemma ov23_nodup : NoDup (map fst [(2, [3])]).
+Proof. cbn. constructor; [intros []|constructor]. Qed.
+
+Lemma start_rgood ags : zh (init_state 3 3 [(2, [3])] ags) = init_state 3 3 [(2, [3])] ags ->
+  forallb vitals_okb ags = true -> forallb a_active ags = true ->
+  forallb (fun a => match a_pos a with
+                    | Some q => (0 <=? fst q) && (fst q <? 3) && (0 <=? snd q) && (snd q <? 3)
+                    | None => true end) ags = true ->
+  forallb hb_b (g_agents (init_state 3 3 [(2, [3])] ags)) = true ->
+  forallb (fun a => negb (a_active a) || match a_pos a with Some _ => true | None => false end)
+          (g_agents (init_state 3 3 [(2, [3])] ags)) = true ->
+  dims 3 3 [(2, [3])] (init_state 3 3 [(2, [3])] ags) ->
+  rgood 3 3 [(2, [3])] (init_state 3 3 [(2, [3])] ags).
+Proof.
+  intros Ez Hv Ha Hp Hh Hpl Hd. split; [split|split].
+  - rewrite Ez. apply init_state_inv.
+    + intros a b. apply overlap_symmetric, ov23_nodup.
+    + apply (forallb_Forall vitals_okb); [exact vitals_okb_ok|exact Hv].
+    + apply (forallb_Forall a_active); [auto|exact Ha].
+    + apply (forallb_Forall (fun a => match a_pos a with
+                                      | Some q => (0 <=? fst q) && (fst q <? 3) && (0 <=? snd q) && (snd q <? 3)
+                                      | None => true end)); [|exact Hp].
+      intros x. destruct (a_pos x); auto.
+  - apply (forallb_Forall hb_b); [|exact Hh]. intros a H. unfold hb_b in H.
+    apply andb_true_iff in H as [H1 H2]. apply Z.leb_le in H1, H2. split; assumption.
+  - apply all_placed_b. exact Hpl.
+  - exact Hd.
+Qed.
+
+Lemma r3_start_rgood : rgood 3 3 [(2, [3])] r3_start.
+Proof. apply start_rgood; try (vm_compute; reflexivity). unfold dims. repeat split; reflexivity. Qed.
+
+Lemma r3_nonvacuous :
+  rs_invP (rgood 3 3 [(2, [3])]) r3_s0 /\ target_ok r3_cf /\ clear r3_cf r3_start /\
+  (let r := rrun_snap (reach_sim r3_cf) MAll (init r3_s0) [CReset; CStep r3_acts r3_acts] in
+   in_protocol (trace (reach_sim r3_cf) MAll (init r3_s0) Fresh [CReset; CStep r3_acts r3_acts]) /\
+   map fst (fst r) = r3_out /\ bs_bad (m_sim (snd r)) = false /\ m_done (snd r) = [0%nat; 1%nat; 2%nat] /\
+   map (fun rg => rinvb (snd rg)) (fst r) = [0; 0] /\
+   (* runner 1: inactive, health 1, in no cell; the target's cell holds the target only *)
+   option_map (fun a => (a_active a, a_health a, a_pos a)) (agent (bs_grid (m_sim (snd r))) 1) =
+     Some (false, HD, Some (1, 1)) /\
+   cell_get (g_cells (bs_grid (m_sim (snd r)))) (1, 1) = [4%nat] /\
+   (* runner 2: dead, in no cell *)
+   option_map (fun a => (a_active a, a_health a)) (agent (bs_grid (m_sim (snd r))) 2) = Some (false, 0) /\
+   cell_get (g_cells (bs_grid (m_sim (snd r)))) (2, 2) = [] /\
+   (* runner 3: still where it was *)
+   cell_get (g_cells (bs_grid (m_sim (snd r)))) (0, 1) = [3%nat]).
+Proof.
+  split; [|split; [|split]].
+  - split; [|constructor; [exact r3_start_rgood|constructor]]. cbn [r3_s0 bs_init bs_grid].
+    split; [apply rinv_empty, ov23_nodup|]. split; [intros a []|]. unfold dims. cbn. auto.
+  - exists r3_att. reflexivity.
+  - intros i Hr. do 5 (destruct i as [|i]; [vm_compute in Hr |- *; try reflexivity; discriminate|]).
+    destruct i; vm_compute in Hr; discriminate.
+  - cbv zeta. split; [apply in_protocolb_ok; vm_compute; reflexivity|]. vm_compute. repeat split; reflexivity.
+Qed.
+
+(* ---- the tree as found (findings/C02-reach-dead-runner): a runner on the target's cell, shot dead in
+   the first loop, is handled as "reached the target" in the second: Grid.remove raises KeyError ------ *)
+Definition f_start : gstate := init_state 3 3 [(2, [3])] [r3_ag 3 (1, 1) false; r3_ag 2 (1, 1) false].
+Definition f_cf : rcfg :=
+  {| rc_agents := [{| r_kind := KRunner; r_view := 0 |}; {| r_kind := KTarget r3_att; r_view := 1 |}];
+     rc_target := 1; rc_self := true |}.
+Definition f_acts : list (nat * ract) :=
+  [(0%nat, RMove (0, 0)); (1%nat, RAttack [0; 0; 0; 0; 1; 0; 0; 0; 0])].
+Definition f_s0 : rstate :=
+  bs_init 3 3 [(2, [3])] [f_start] {| o_unif := [0]; o_choice := [[0%nat]] |} [3; 2; 2; 2].
+
+Lemma f_start_rgood : rgood 3 3 [(2, [3])] f_start.
+Proof. apply start_rgood; try (vm_compute; reflexivity). unfold dims. repeat split; reflexivity. Qed.
+
+Theorem dead_runner_prefix_refuted :
+  exists cf s0 acts,
+    target_ok cf /\ rs_invP (rgood 3 3 [(2, [3])]) s0 /\ bs_bad s0 = false /\
+    in_protocol (trace (reach_sim cf) MAll (init s0) Fresh [CReset; CStep acts acts]) /\
+    (* under the all-step manager, first step after reset: the model of the code as found flags the
+       step (the KeyError of Grid.remove) ... *)
+    bs_bad (m_sim (snd (run (reach_sim_prefix cf) MAll (init s0) [CReset; CStep acts acts]))) = true /\
+    (* ... the repaired step does not: the runner is dead (-1 -0.01), the target got its +1 *)
+    bs_bad (m_sim (snd (run (reach_sim cf) MAll (init s0) [CReset; CStep acts acts]))) = false /\
+    fst (run (reach_sim cf) MAll (init s0) [CReset; CStep acts acts]) =
+      [RObs [(0%nat, [[3]]); (1%nat, [[0; 0; 0]; [0; 2; 0]; [0; 0; 0]])];
+       ROut {| o_obs := [(0%nat, [[2]]); (1%nat, [[0; 0; 0]; [0; 2; 0]; [0; 0; 0]])];
+               o_rew := [(0%nat, -101); (1%nat, 100)]; o_done := [(0%nat, true); (1%nat, true)];
+               o_info := [(0%nat, tt); (1%nat, tt)]; o_all := true |}].
+Proof.
+  exists f_cf, f_s0, f_acts. split; [exists r3_att; reflexivity|]. split.
+  { split; [|constructor; [exact f_start_rgood|constructor]]. cbn [f_s0 bs_init bs_grid].
+    split; [apply rinv_empty, ov23_nodup|]. split; [intros a []|]. unfold dims. cbn. auto. }
+  split; [reflexivity|]. split; [apply in_protocolb_ok; vm_compute; reflexivity|].
+  vm_compute. repeat split; reflexivity.
+Qed.
